@@ -7,7 +7,7 @@ import importlib.util
 
 from ..absint import App, Cfg, ClassV, Const, DictV, FuncV, ListV, NodeV, ObjV, Out, Sym
 from ..flow import FlowPolicy, exits, run_flow
-from ..repo import AnalysisError, body_walk, call_name, enclosing_unit, norm, short
+from ..repo import AnalysisError, body_walk, call_name, const_set, enclosing_unit, norm, short
 from ..schematic import MODULE_SCOPE, EventInterp, HandlerPolicy, to_nodev
 from .c03 import _restore_rule
 
@@ -502,6 +502,10 @@ def import_candidate_cases(program):
         ("apps.app1", "apps/app1/__init__", "/cfg/pyscript/apps/app1/__init__.py", "pkg.sub.leaf", 0),
         ("scripts.s1", None, "/cfg/pyscript/scripts/s1.py", "pkg.sub", 0),
         ("modules.pkg.sub", "modules/pkg/sub", "/cfg/pyscript/modules/pkg/sub/__init__.py", "deep.leaf", 1),
+        # a pyscript module may carry the name of an installed / allow-listed module: it is still looked for (and found) first
+        ("scripts.s1", None, "/cfg/pyscript/scripts/s1.py", "random", 0),
+        ("file.hello", None, "/cfg/pyscript/hello.py", "json", 0),
+        ("apps.app1", "apps/app1/__init__", "/cfg/pyscript/apps/app1/__init__.py", "os", 0),
     ]
     for ctx_name, relpath, file_path, mod, level in scen:
         cands = _resolve(program, ctx_name, relpath, mod, level, file_path, want_files=True)
@@ -560,7 +564,8 @@ def _resolve(program, ctx_name, relpath, module_name, level, file_path=None, loa
                 files.append(tuple(x.v if isinstance(x, Const) else repr(x) for x in row.items) if isinstance(row, ListV) else repr(row))
         return [(cfg, Const(None))]
 
-    pol = FlowPolicy(program, may_raise_all=False, cancel=False, inline={"GlobalContext.get_name"},
+    allowed = const_set(program.module_const("const.py", "ALLOWED_IMPORTS")) or set()
+    pol = FlowPolicy(program, may_raise_all=False, cancel=False, inline={"GlobalContext.get_name"}, globals_={"ALLOWED_IMPORTS": Const(frozenset(allowed))},
                      summaries={"self.manager.get": mget, "Function.hass.config.path": lambda i, n, a, k, c, o: [(c, Const("/cfg/pyscript"))],
                                 "Function.hass.async_add_executor_job": lookup})
     heap = {"self.rel_import_path": Const(relpath), "self.name": Const(ctx_name), "self.manager": Sym(("mgr",)), "self.imports": ListV((), "set"),
@@ -584,5 +589,8 @@ def _resolve(program, ctx_name, relpath, module_name, level, file_path=None, loa
         excs = {getattr(c.env.get("$exc"), "cls", "?") for c in out.get("raise")}
         return "ImportError" if excs == {"ImportError"} else f"raise {sorted(excs)}"
     if want_files:
+        n_exits = len(out.get("return")) + len(out.get("raise"))
+        if len(disk) < n_exits:
+            return f"{n_exits - len(disk)} of {n_exits} path(s) return without looking for the module's file"
         return list(dict.fromkeys(files))
     return sorted(set(looked))
